@@ -321,6 +321,8 @@ class UCSReplication(MessagePassingComputation):
 
         self._pending_requests = {}
         self._removed_agents = set()
+        # Replications waiting for a neighbor computation to be discovered.
+        self._deferred_replications = []
 
         self.logger = (
             logger
@@ -375,6 +377,29 @@ class UCSReplication(MessagePassingComputation):
                 )
 
         return self._replication_computations_cache
+
+    def _unknown_neighbor_computations(self) -> List[ComputationName]:
+        unknown = []
+        for c_def, _ in self.computations.values():
+            for neighbor_name in c_def.node.neighbors:
+                if neighbor_name in self.computations or neighbor_name in unknown:
+                    continue
+                try:
+                    self.discovery.computation_agent(neighbor_name)
+                except UnknownComputation:
+                    unknown.append(neighbor_name)
+        return unknown
+
+    def _on_neighbor_found(self, event: str, computation: str, agent: str):
+        if event != "computation_added" or not self._deferred_replications:
+            return
+        self._replication_computations_cache = set()
+        deferred, self._deferred_replications = self._deferred_replications, []
+        for k_target, computations in deferred:
+            self._replication_in_progress.remove(computations)
+            computations = [c for c in computations if c in self.computations]
+            if computations:
+                self.replicate(k_target, computations)
 
     def add_computation(self, comp_def: ComputationDef, footprint: float):
         """
@@ -474,6 +499,21 @@ class UCSReplication(MessagePassingComputation):
         self._replication_in_progress.add(computations)
         neighbors = self.replication_neighbors()
         if not neighbors:
+            unknown = self._unknown_neighbor_computations()
+            if unknown:
+                # The agents hosting our neighbor computations are not known
+                # yet (e.g. a computation that was just migrated here):
+                # start the replication once one of them has been found.
+                self.logger.info(
+                    f"Defer replication of {computations} until one of "
+                    f"{unknown} is found"
+                )
+                self._deferred_replications.append((k_target, computations))
+                for n in unknown:
+                    self.discovery.subscribe_computation(
+                        n, self._on_neighbor_found, one_shot=True
+                    )
+                return
             self.logger.warning(
                 f"Cannot replicate computations {computations} : no neighbor"
             )
